@@ -374,7 +374,7 @@ class C14(Check):
             "to renaming of the two peers (first call on peer 0; additionally all continuations of length <= 2 (full alphabet) of a completed negotiation, of "
             "two negotiations in opposite directions and of glare; the 4 peer set-ups audio+data/audio, data/none, "
             "audio/audio, audio+video+data/audio+video come in both orientations); plus random sequences of length 5-40 "
-            "biased towards legal continuations (local edits, offers without rtcp-mux or with an m-section dropped, a few "
+            "biased towards legal continuations (also edited local descriptions, offers without rtcp-mux, a few "
             "pranswer/rollback types); thorough adds 1M sampled sequences of length 5-6; distinct by (case, observations); "
             "non-trivial = at least one state-changing call succeeded and at least one later call on that peer was rejected")
 
@@ -523,7 +523,15 @@ class C14(Check):
                             s.state = s.next("L", typ)
                 else:
                     ops.append([p, code, rng.randrange(2), rng.choice([0, 0, 0, 1, 2, 3, 4, 5]), -1])
-        return ops[:hi]
+        ops = ops[:hi]
+        # An OFFER with an m-section cut out is a different, well-formed offer; once applied, the two
+        # peers disagree about the m-line layout and later calls fail inside the negotiation code
+        # (MID assignment), which is C03's subject and not modelled here.  Cut m-sections out of
+        # answers only (there it is the "mismatched answer" of the property).
+        for op in ops:
+            if len(op) == 5 and op[2] == 0 and op[3] == 1:
+                op[3] = 0
+        return ops
 
     def _build(self, rng):
         cases = []
